@@ -19,10 +19,10 @@ LEVEL_TEXT = ('for every combination the path printed by trash-list (also in its
 LEVEL_NOTE = 'trusted: R1; the base directory of a relative Path inside the HOME trash is not fixed by the spec -- only agreement between the commands is demanded there'
 RULE = ('Path value {absolute, relative, relative with .., %41, %2F, %ZZ, lone %, empty, inner+trailing spaces, leading space, CRLF, non-ASCII escaped, an escape that is not valid UTF-8 (%E9)} x structure {plain, duplicate Path, '
         'duplicate DeletionDate, extra keys, extra section, missing header, lowercase key, "Path =", date before path, no final newline, malformed first DeletionDate followed by a valid one} x trash dir {home on /, home on own volume, '
-        '.Trash/uid, .Trash-uid, --trash-dir, --trash-dir through a symlink that crosses a volume boundary}; non-trivial = at least one command produced a reading; distinct = (path class, structure, dir, agreement class)')
+        '.Trash/uid, .Trash-uid, --trash-dir, --trash-dir through a symlink that crosses a volume boundary, two --trash-dir options (root volume first)}; a well-formed companion entry is read before the entry under test; non-trivial = at least one command produced a reading; distinct = (path class, structure, dir, agreement class)')
 PATHS = ['abs', 'rel', 'rel-dotdot', 'pct41', 'pct2F', 'pctZZ', 'pct-lone', 'empty', 'spaces', 'leadsp', 'crlf', 'utf8', 'pctE9']
 STRUCTS = ['plain', 'dup-path', 'dup-date', 'extra-keys', 'extra-section', 'no-header', 'lower-key', 'path-space-eq', 'date-first', 'no-final-nl', 'bad-date-then-good']
-DIRS = ['home-root', 'home-ownvol', 'top', 'alt', 'trash-dir', 'trash-dir-xlink']
+DIRS = ['home-root', 'home-ownvol', 'top', 'alt', 'trash-dir', 'trash-dir-xlink', 'two-trash-dirs']
 DATE = '2021-03-04T05:06:07'
 
 
@@ -61,12 +61,21 @@ def run_case(c):
     scen.add_trash_dir(W, '/mnt/v2/.Trash-0')          # one more volume with an (empty) trash directory of its own
     td, top = {'home-root': (scen.HOME_TRASH, None), 'home-ownvol': (scen.HOME_TRASH, None), 'top': ('/mnt/v1/.Trash/0', '/mnt/v1'),
                'alt': ('/mnt/v1/.Trash-0', '/mnt/v1'), 'trash-dir': ('/mnt/v1/custom', '/mnt/v1'),
+               'two-trash-dirs': ('/mnt/v1/custom', '/mnt/v1'),
                'trash-dir-xlink': ('/mnt/v1/custom', None)}[d]          # given as --trash-dir /home/u/lnk (a symlink that crosses the volume boundary): no spec reading, agreement only
     if d == 'top':
         W.dir('/mnt/v1/.Trash', mode=0o1777)
     raw = content(c['pv'], c['st'])
     scen.add_trashed(W, td, 'e', None, raw=raw, payload='file', tag='the payload')
+    # a well-formed companion in the same directory, read BEFORE e by every command (its name sorts first)
+    comp_rel = top is not None or d == 'trash-dir-xlink'
+    scen.add_trashed(W, td, 'aa', ('u/w/companion' if comp_rel else '/data/w/companion'), '2011-11-11T11:11:11', payload='file', tag='companion')
     tdopt = ['--trash-dir', td] if d == 'trash-dir' else []
+    tdopt_r = None
+    if d == 'two-trash-dirs':
+        # trash-list / trash-empty accept several --trash-dir: an empty one on the root volume first, then the one on /mnt/v1 (trash-restore takes one)
+        scen.add_trash_dir(W, '/home/u/emptytd')
+        tdopt, tdopt_r = ['--trash-dir', '/home/u/emptytd', '--trash-dir', td], ['--trash-dir', td]
     if d == 'trash-dir-xlink':
         W.link('/home/u/lnk', '/mnt/v1/custom')
         tdopt = ['--trash-dir', '/home/u/lnk']
@@ -75,20 +84,22 @@ def run_case(c):
     with cell.Sandbox(spec) as sb:
         before = sb.snapshot()
         rl = sb.run(['trash-list'] + tdopt, cwd='/')
-        ll = [ln for ln in rl.out.split('\n') if ln]
+        ll = [ln for ln in rl.out.split('\n') if ln and not ln.endswith('/companion')]
         if ll:
-            first = rl.out.rstrip('\n')
+            first = '\n'.join(ll)
             readings['list_date'], readings['list_path'] = first[:19], first[20:]
         rf = sb.run(['trash-list', '--files'] + tdopt, cwd='/')
-        if rf.out.strip('\n'):
-            ff = rf.out.rstrip('\n')
+        fl = [ln for ln in rf.out.split('\n') if ln and '/companion -> ' not in ln]
+        if fl:
+            ff = '\n'.join(fl)
             readings['listfiles_path'] = ff[20:].rsplit(' -> ', 1)[0]
-        rr = sb.run(['trash-restore'] + tdopt + ['/'], cwd='/', stdin='\n')
-        li = scen.parse_restore_listing(rr.out)
+        rr = sb.run(['trash-restore'] + (tdopt_r if tdopt_r is not None else tdopt) + ['/'], cwd='/', stdin='\n')
+        li_all = scen.parse_restore_listing(rr.out)
+        li = [x for x in li_all if not x[2].endswith('/companion')]
         if li:
             readings['restore_date'], readings['restore_path'] = li[0][1], li[0][2]
         L = readings.get('list_path')
-        if not d.startswith('trash-dir') and L is not None and L != '':
+        if d not in ('trash-dir', 'trash-dir-xlink', 'two-trash-dirs') and L is not None and L != '':
             esc = ''.join('[%s]' % ch if ch in '*?[' else ch for ch in L)
             if esc.startswith('/'):
                 sb.run(['trash-rm', esc + 'x'], cwd='/')
@@ -103,13 +114,13 @@ def run_case(c):
         else:
             sb.run(['trash-empty'] + tdopt + ['0'], cwd='/', env=dict(W.env, TRASH_DATE='2999-01-01T00:00:00'))
             readings['empty_undated'] = scen.entry_state(before, sb.snapshot(), td, 'e')
-        if not d.startswith('trash-dir') and L and L.startswith('/'):
+        if d not in ('trash-dir', 'trash-dir-xlink', 'two-trash-dirs') and L and L.startswith('/'):
             sb.run(['trash-rm', esc], cwd='/')
             readings['rm_exact'] = scen.entry_state(before, sb.snapshot(), td, 'e')
     with cell.Sandbox(spec) as sb2:
         b2 = sb2.snapshot()
         if li:
-            r2 = sb2.run(['trash-restore'] + tdopt + ['/'], cwd='/', stdin='0\n')
+            r2 = sb2.run(['trash-restore'] + (tdopt_r if tdopt_r is not None else tdopt) + ['/'], cwd='/', stdin='%d\n' % li[0][0])
             a2 = sb2.snapshot()
             dest = [p for p in a2 if p not in b2 and a2[p][0] == 'f' and a2[p][3] == b2[td + '/files/e'][3]]
             readings['restored_to'] = dest[0] if len(dest) == 1 else (None if not dest else dest)
@@ -138,7 +149,7 @@ def run_case(c):
             b4 = sb4.snapshot()
             sb4.run(['trash-rm', '*'], cwd='/')
             readings['rm_star_when_unlisted'] = scen.entry_state(b4, sb4.snapshot(), td, 'e')
-        if not d.startswith('trash-dir') and readings['rm_star_when_unlisted'] != 'kept':
+        if d not in ('trash-dir', 'trash-dir-xlink', 'two-trash-dirs') and readings['rm_star_when_unlisted'] != 'kept':
             return viol('unlisted-entry-matched-by-rm', '|struct=%s' % c['st'])
         return {'verdict': 'ok', 'klass': 'unreadable-for-all', 'nontrivial': False, 'execs': 4, 'detail': detail}
     if readings.get('listfiles_path') != L:
